@@ -1,4 +1,5 @@
 """C01 — exactly one response per client request, on the request's own stream."""
+from checks import pendingstage
 from checks import reqfamily as rf
 
 
@@ -23,4 +24,5 @@ def run(ctx):
         ("gated-d7", ["-scenario", "d7"], "gates", "gated-retry-same-no-conn"),
         ("gated-d11", ["-scenario", "d11"], "gates", "gated-reprepare-send-fails"),
     ]
-    rf.run_property(ctx, "C01", plans, scenario_filter=lambda s: "drop" in s["outcomes"] or len(s["outcomes"]) >= 2, nscen=400, design=True)
+    rf.run_property(ctx, "C01", plans, scenario_filter=lambda s: "drop" in s["outcomes"] or len(s["outcomes"]) >= 2, nscen=400, design=True,
+                    stages=[lambda c: pendingstage.run(c, "C01")])
